@@ -82,6 +82,11 @@ def scopes():
 def loops():
     out = {}
     out["for_continue"] = prog([For("j", I(0), I(4), [If(Bin("==", V("j"), I(1)), [Continue()], []), Println(V("j"))])])
+    out["for_continue_last_iteration"] = prog([If(B(True), [For("j", I(0), I(3), [If(Bin(">=", V("j"), I(1)), [Continue()], []), Println(V("j"))]), Println(S("after-for"))], []), Println(S("end"))])
+    out["for_continue_last_in_while"] = prog([Let("k", "int", I(0), True), While(Bin("<", V("k"), I(2)), [Set("k", Bin("+", V("k"), I(1))),
+                                              For("j", I(0), I(2), [If(Bin("==", V("j"), I(1)), [Continue()], []), Println(V("j"))]), Println(Bin("+", V("k"), I(100)))]), Println(S("end"))])
+    out["while_continue_last_iteration"] = prog([Let("k", "int", I(0), True), If(B(True), [While(Bin("<", V("k"), I(3)), [Set("k", Bin("+", V("k"), I(1))), If(Bin(">=", V("k"), I(2)), [Continue()], []), Println(V("k"))]),
+                                                 Println(S("after-while"))], []), Println(S("end"))])
     out["for_break"] = prog([For("j", I(0), I(9), [If(Bin("==", V("j"), I(2)), [Break()], []), Println(V("j"))]), Println(S("end"))])
     out["while_continue"] = prog([Let("k", "int", I(0), True), While(Bin("<", V("k"), I(5)), [Set("k", Bin("+", V("k"), I(1))),
                                   If(Bin("==", Bin("%", V("k"), I(2)), I(0)), [Continue()], []), Println(V("k"))])])
